@@ -103,10 +103,10 @@ def run(res, args):
         if ve[0] != vs[0] or (ve[0] and (ve[2] != vs[2] or ve[1][0] != vs[1][0])):
             spec_diff.append(('mutant ' + k, m, er, sr, None))
     # the statement of Props.C05.output_denotes_tree_partial, evaluated: where the model's tree is `xmlRepresentable`
-    # (compact / canonical generation) the document the theorem predicts must be what the specification
-    # reader gets from the IMPLEMENTATION's output
+    # the document the theorem predicts (exactly in compact / canonical generation, up to blanks in character
+    # data in indented generation) must be what the specification reader gets from the IMPLEMENTATION's output
     pos = {i: k for k, (i, _) in enumerate(xmls)}
-    vidx = [i for i in range(len(lines)) if meta[i][1][0] in (0, 2) and i in pos]
+    vidx = [i for i in range(len(lines)) if i in pos]
     xv, _ = corr.run_lines(drv, ['XVIEW' + lines[i][3:] for i in vidx])
     gap = []
     view_stats = {'representable': 0, 'not_representable': 0, 'theorem_instances_confirmed': 0}
@@ -120,7 +120,13 @@ def run(res, args):
             continue
         view_stats['representable'] += 1
         sr = sx[pos[i]]
-        if sr is not None and sr.startswith('X 1') and sr[4:] == vr[4:]:
+        if meta[i][1][0] == 1:
+            # indented generation: equal after deleting the blanks (space, line feed) from character data
+            same = sr is not None and sr.startswith('X 1') and c05_util.squash(sr[4:]) == c05_util.squash(vr[4:])
+            view_stats['indented_instances_confirmed'] = view_stats.get('indented_instances_confirmed', 0) + same
+        else:
+            same = sr is not None and sr.startswith('X 1') and sr[4:] == vr[4:]
+        if same:
             view_stats['theorem_instances_confirmed'] += 1
         else:
             spec_diff.append(('theorem-instance', xmls[pos[i]][1], 'predicted: ' + vr[:500], sr, lines[i]))
@@ -200,11 +206,11 @@ def run(res, args):
                 res.violation({'kind': 'sanitizer-or-crash', 'request': lines[idx], 'rc': rc1, 'stderr': err1[-2000:]}, f'crash-{idx}')
     for i, what, xml in viol[:3]:
         res.violation({'kind': 'xml-oracle', 'request': lines[i], 'what': what, 'xml': xml.decode('latin-1')[:3000], 'parser_events': meta[i][0][:3000]}, f'oracle-{i}')
-    for what, doc, er, sr, line in spec_diff[:3]:
+    for k, (what, doc, er, sr, line) in enumerate(spec_diff[:3]):
         # (a disagreement on an output of the unchanged tree is a defect of Spec/Xml.lean or of the comparison,
         # not of the implementation: the theorems of Props/C05.lean are stated with that reader)
         res.violation({'kind': 'xml-specification-vs-expat', 'what': what, 'xml': doc.decode('latin-1')[:3000], 'xml_hex': doc.hex()[:6000], 'request': line,
-                       'expat': (er or 'no answer')[:600], 'specification': (sr or 'no answer')[:600], 'disagreements': len(spec_diff)}, f'xmlspec-{what.split()[0]}')
+                       'expat': (er or 'no answer')[:600], 'specification': (sr or 'no answer')[:600], 'disagreements': len(spec_diff)}, f'xmlspec-{what.split()[0]}-{k}')
     if corr_diff and not res.violations:
         i = corr_diff[0]
         res.violation({'kind': 'correspondence', 'stream': 'W2X', 'request': lines[i], 'impl': (impl[i] or '')[:600], 'model': (model[i] or '')[:600], 'differences': len(corr_diff)},
